@@ -1,6 +1,7 @@
 import Mouette.Model.Proto
 import Mouette.Model.MeshCheck
 import Mouette.Generated.C14
+import Mouette.Generated.C14Solids
 /-
 Protocol front-end for C14. The face lists come from `Mouette.Generated.C14`, i.e. from the functional terms the
 translator extracted from the *current* source of mouette/procedural/*.py.
@@ -8,10 +9,13 @@ translator extracted from the *current* source of mouette/procedural/*.py.
   request : <generator> <int params…> <bool params…>
   reply   : nV ; F f1 f2 … (each face length-prefixed) ; inRange noUnused simple distinct dirNodup closed ; E border chi
   polylines (`chain_of_vertices n loop`, `vector_field n`): nV ; E a1 b1 a2 b2 …   (edges in order)
+  round 4, whole translated bodies: `tetrahedron_full v`, `hexahedron_full c t v` (the three switches):
+            <reply as above for the face container> ; cells <list> ; colors <[k, r, g, b] writes in execution order>
+            `counts icosphere n` / `counts cylindrify nE N` : the translated count terms
 -/
 namespace Mouette.DriveC14
 open Mouette.Proto Mouette.MeshCheck
-open Mouette.Generated.C14
+open Mouette.Generated.C14 Mouette.Generated.C14Solids
 
 def report (nV : Nat) (fs : List (List Nat)) : String :=
   let flags := [allInRange nV fs, noUnused nV fs, facesSimple fs, facesDistinct fs, dirEdgesNodup fs, closed fs]
@@ -43,6 +47,15 @@ def handle (ts : List String) : Option String :=
       fun (a, l) => s!"{a} ; {fmtList (fun (e : Nat × Nat) => s!"{e.1} {e.2}") (chainEdges a l)}"
   | "vector_field" :: r => (runP (do let a ← nat; pure a) r).map
       fun a => s!"{vectorFieldVertsPer * a} ; {fmtList (fun (e : List Nat) => " ".intercalate (e.map toString)) (vectorFieldEdges a)}"
+  | ["tetrahedron_full", v] =>
+      let v := v == "1"
+      some s!"{report tetrahedronNVerts (tetrahedronFacesAll v)} ; cells {fmtList fmtNats (tetrahedronCells v)} ; colors {fmtList fmtNats ([] : List (List Nat))}"
+  | ["hexahedron_full", c, t, v] =>
+      let c := c == "1"; let t := t == "1"; let v := v == "1"
+      some s!"{report hexahedronNVerts (hexahedronFacesAll c t v)} ; cells {fmtList fmtNats (hexahedronCells c t v)} ; colors {fmtList fmtNats (hexahedronColorWrites c t v)}"
+  | ["translated", _] => some "translated"     -- generators whose translated fragments are validated on the Python side only
+  | ["counts", "icosphere", n] => some s!"{icosphereSteps n.toNat!}"
+  | ["counts", "cylindrify", a, b] => some s!"{cylindrifyNVerts a.toNat! b.toNat!} {cylindrifyNFaces a.toNat! b.toNat!}"
   | ["dual_counts", a, b] => some s!"{dualNVerts a.toNat! b.toNat!} {dualNFaces a.toNat! b.toNat!}"
   | ["binding"] => some (" ".intercalate (hexa4ptsBinding.map fun (a, b) => s!"{a}->{b}"))
   | _ => none
